@@ -373,6 +373,8 @@ class Prop(Check):
         "Peg.C22_identity_cache_invariant", "Peg.C22_only_active_set",
         "Peg.C22_full_false_active_set", "Peg.C22_full_false_gap_extension",
         "Peg.C22_ws_param_denotes", "Peg.C22_ws_param_skip", "Peg.C22_ws_param_literal",
+        "Peg.C22_tree_terminals_are_tokens", "Peg.C22_no_terminal_overlaps_gap", "Peg.C22_slice_extendGap",
+        "Peg.C22_term_value_ext", "Peg.C22_build_shift", "Peg.C22_model_unchanged", "Peg.C22_ws_param_tx",
     ]
     DRIVER = "Drivers/PegWs.lean"
     QUICK_CASES = 240
